@@ -793,3 +793,41 @@ def sc_terminate_during_supervision(params, obs, save):
     obs['ups'] = len(up)
     obs['threads_after'] = _thread_names(_pool_threads(before))
     obs['worst_stall'] = hb.stop()
+
+
+def sc_grow_shrink(params, obs, save):
+    """grow() / shrink() on a real pool: supervision follows the target"""
+    up = []
+    pool = _mkpool(params, up)
+    n = params['nproc']
+
+    def live():
+        return len([w for w in pool._pool if w._is_alive()])
+
+    def pids_serving(k, dur=0.3):
+        hs = [pool.apply_async(tasks.t_pid, ('g', dur)) for _ in range(k)]
+        return sorted({h.get(30)[2] for h in hs})
+    obs['live_start'] = live()
+    pool.grow(params['grow'])
+    _wait_for(lambda: live() == n + params['grow'], 8)
+    obs['live_after_grow'] = live()
+    obs['indices_after_grow'] = sorted(getattr(w, 'index', -1) for w in pool._pool)
+    obs['pids_after_grow'] = pids_serving(3 * (n + params['grow']))
+    time.sleep(0.5)          # everybody idle again
+    try:
+        pool.shrink(params['shrink'])
+        obs['shrink'] = 'ok'
+    except ValueError as exc:
+        obs['shrink'] = repr(exc)
+    target = n + params['grow'] - (params['shrink'] if obs['shrink'] == 'ok' else 0)
+    _wait_for(lambda: live() == target and len(pool._pool) == target, 10)
+    time.sleep(1.0)          # one more supervision period: nothing may come back
+    obs['live_after_shrink'] = live()
+    obs['pool_len_after_shrink'] = len(pool._pool)
+    obs['target_after_shrink'] = target
+    obs['indices_after_shrink'] = sorted(getattr(w, 'index', -1) for w in pool._pool)
+    obs['after'] = [_outcome(lambda: pool.apply_async(tasks.t_pid, ('s', 0.05)).get(20))
+                    for _ in range(4)]
+    obs['ups'] = len(up)
+    save()
+    pool.terminate()
